@@ -204,6 +204,12 @@ def run_probe(case):
 
 def run_api(case):
     """Overlay helper API: tweaking / rewriting / tap / on."""
+    if case.get("reenter"):
+        # with house: with experiment: with house.fork(): ...  - the override that was activated again last wins
+        hA, hB = case["handlers"][0], case["handlers"][1]
+        house = Overlay().tweak({select(S.sel_str(hA["sel"]), env=ENV): hA["ovr"]["c"]})
+        exp = Overlay().tweak({select(S.sel_str(hB["sel"]), env=ENV): hB["ovr"]["c"]})
+        return [house, exp, house.fork()]
     ol = Overlay()
     if case.get("forkpre"):
         # the instance has a history: blocks forked from it (tweaking / rewriting / tapping) that are over; nothing of them stays
